@@ -11,16 +11,22 @@ def load():
     return json.load(open(p)).get("findings", [])
 
 
-def match_open(prop: str, violation: dict):
-    """a violation is covered iff an OPEN finding names the same unit and the same obligation(s)
-    and (for bounded units) the failing input belongs to the finding's input class"""
+def match_open(prop, violation: dict):
+    """a violation is covered iff an OPEN finding lists the same obligation (for this property) and the failing
+    input belongs to the finding's input class.  Verus/Kani obligations carry no input class, so they are never
+    covered by a finding: a failed proof obligation on this tree is always reported."""
+    obs = set(violation.get("obligations", []))
+    feats = set(violation.get("features", []) or [])
     for f in load():
-        if f.get("status") != "open" or f.get("property") != prop or f.get("unit") != violation.get("unit"):
+        if f.get("status") != "open":
             continue
-        obs = set(violation.get("obligations", []))
-        if obs and obs <= set(f.get("obligations", [])):
-            cls = f.get("input_class")
-            if cls and violation.get("input_class") != cls:
-                continue
-            return f"{f['id']}: {f['what']}"
+        if prop is not None and prop not in f.get("properties", []):
+            continue
+        if not obs or not obs <= set(f.get("obligations", [])):
+            continue
+        cls = f.get("input_class")
+        if cls and cls not in feats:
+            continue
+        n = violation.get("count")
+        return f"{f['id']} {sorted(obs)[0]} [{cls}]" + (f" ({n} inputs in this run)" if n else "") + f": {f['what'][:160]}"
     return None
